@@ -108,6 +108,7 @@ def run(ctx):
         probs.append("expected one set_mac in Arp::demux, found %d" % len(sm))
     (ctx.bad if probs else ctx.ok)("A-LEARN", "A-LEARN:Arp::demux", dm.span, "; ".join(probs) if probs else
         "table learns (sender_ip -> sender_mac) of decoded packets only")
+    a_must(ctx, prog, dm)
     # who writes the table
     tbl_writers = {}
     for b in prog.bodies.values():
@@ -289,3 +290,76 @@ def run(ctx):
 def _is_named(body, op, name):
     pl = F.op_place(op)
     return pl is not None and body.local_name(pl[0]) == name
+
+
+def a_must(ctx, prog, dm):
+    """A-MUST (the converse of A-REPLY / A-LEARN, on the formula of Arp::demux): every decoded packet that is not a Request
+    is learned from - whoever sent it - and every decoded Request for an address in local_ips is answered.  A machine
+    that skips either for some senders (its own echo, say) cannot resolve addresses that it, or such a sender, owns."""
+    from .. import symx as S
+    try:
+        ex = S.Extractor(prog, (), effects=True, max_nodes=600000)
+        ex.log_calls = {K.SEND_PCI}
+        t = ex.run(dm, S.params_of(dm))
+    except S.Unsupported as e:
+        ctx.bad("A-MUST", "A-MUST:Arp::demux", dm.span, "Arp::demux cannot be reduced to a formula (%s)" % e)
+        return
+    is_dec = lambda x: x[0] == "call" and x[1].endswith("arp_parsing::{impl#0}::from_bytes")
+    decs = set(S.atoms(t, is_dec))
+    if len(decs) != 1:
+        ctx.bad("A-MUST", "A-MUST:Arp::demux", dm.span, "expected one ArpPacket::from_bytes in the formula, found %d" % len(decs))
+        return
+    R = decs.pop()
+    PKT = ("field", ("downcast", R, "Ok"), "0")
+    op_adt = prog.adt("arp_parsing::Operation")
+    req_d = [int(v["discr"]) if v.get("discr") is not None else i for i, v in enumerate(op_adt["variants"]) if v["name"] == "Request"][0]
+
+    def pkt_field(x, name):
+        return x[0] == "field" and x[2] == name and x[1][0] == "field" and x[1][1][0] == "downcast" and x[1][1][1] == R
+
+    def request_cond(term, outcome):
+        """True / False / None: this condition says the packet is (not) a Request."""
+        if term[0] == "discr" and pkt_field(term[1], "oper"):
+            if outcome[0] == "eq":
+                return outcome[1] == req_d
+            if outcome[0] == "ne":
+                return False if req_d in outcome[1] else None
+        if term[0] == "call" and term[1].rsplit("::", 1)[-1] in ("eq", "ne") and len(term[2]) == 2 and outcome[0] == "is":
+            a, b = term[2]
+            if any(pkt_field(y, "oper") for y in (a, b)) and any(y[0] == "variant" and y[2] == "Request" for y in (a, b)):
+                return outcome[1] == (term[1].rsplit("::", 1)[-1] == "eq")
+        return None
+
+    def local_cond(term, outcome):
+        if term[0] == "call" and term[1].endswith("::contains_key") and len(term[2]) == 2 and outcome[0] == "is" \
+                and S.atoms(term[2][0], lambda y: y[0] == "field" and y[2] == "local_ips") and pkt_field(term[2][1], "target_ip"):
+            return outcome[1]
+        return None
+    probs = []
+    n_dec = n_req = 0
+    for conds, log, leaf in S.paths(t):
+        if leaf[0] in ("never", "unreachable", "stop"):
+            continue
+        dec_ok = [o for c, o in conds if c == ("discr", R)]
+        if not dec_ok or not (dec_ok[0][0] == "eq" and dec_ok[0][1] == 0):
+            continue
+        n_dec += 1
+        learned = [c for c in log if c[0] == "call" and c[1].endswith("::set_mac") and len(c[2]) == 3 and pkt_field(c[2][1], "sender_ip") and pkt_field(c[2][2], "sender_mac")]
+        rq0 = [request_cond(c, o) for c, o in conds if request_cond(c, o) is not None]
+        if not learned and not (rq0 and all(rq0)):
+            # (learning from Requests is an optimisation; a Reply - or a packet whose kind was not even looked at - is
+            # the answer some resolve() is waiting for)
+            why = [S.term_str(c)[:90] for c, o in conds if not S.atoms(c, lambda y: y[0] == "named" or (y[0] == "call" and "is_never" in y[1])) and c != ("discr", R)
+                   and request_cond(c, o) is None and local_cond(c, o) is None and c[0] != "discr" or (c[0] == "discr" and c[1][0] == "call" and "mac" in c[1][1])]
+            probs.append("a packet that decodes can leave demux without (sender_ip -> sender_mac) being learned%s" % (" (path decided by %s)" % why[-1] if why else ""))
+        rq = [request_cond(c, o) for c, o in conds if request_cond(c, o) is not None]
+        lc = [local_cond(c, o) for c, o in conds if local_cond(c, o) is not None]
+        if rq and all(rq) and lc and all(lc):
+            n_req += 1
+            if not any(c[0] == "call" and c[1] == K.SEND_PCI for c in log):
+                probs.append("a Request for an address in local_ips can go unanswered")
+    if n_dec == 0 or n_req == 0:
+        probs.append("no decoded / answered path found in the formula (%d, %d)" % (n_dec, n_req))
+    probs = sorted(set(probs))
+    (ctx.bad if probs else ctx.ok)("A-MUST", "A-MUST:Arp::demux", dm.span, "; ".join(probs[:2]) if probs else
+        "%d decoded paths: every one that is not a Request learns the sender; %d request-for-a-local-address paths all reply" % (n_dec, n_req))
